@@ -5,6 +5,7 @@ Runs real `PersistentMixin` modules on a fault-injecting file layer (`FaultFS`, 
 snapshot of the directory after each one, and lets the Lean side (model `Small/Persist`, monitors `Spec/C17`)
 compare and judge.  Nothing about the property is decided here."""
 import builtins
+import io
 import json
 import os
 import shutil
@@ -107,10 +108,11 @@ class Injected(OSError):
 class FaultFS:
     """file layer seen by frappy.persistent: logs, injects one OSError, snapshots the directory"""
 
-    def __init__(self, root):
+    def __init__(self, root, buf=None):
         self.root = str(root)
         self.pdir = os.path.join(self.root, 'persistent')
         self.tname = 'eq.m.json'
+        self.buf = buf         # None: the buffering of the builtin open; [buffer size, text chunk size]: a smaller one
         self.reset()
 
     def reset(self, fault=None):
@@ -190,41 +192,75 @@ class FaultFS:
     # -- `open`
     def open(self, p, mode='r', **kwds):
         if 'w' in mode or 'a' in mode or '+' in mode:
-            return self._event(['open', self.canon(p)], lambda: _WFile(self, p, mode, kwds))
+            return self._event(['open', self.canon(p)], lambda: self._wfile(p, mode, kwds))
         self.reads.append(['open', self.canon(p)])
         return builtins.open(p, mode, **kwds)
 
+    def _wfile(self, p, mode, kwds):
+        """what the builtin `open` returns for writing - Python's own text layer and buffered writer - on a raw file whose
+        `write` and `close` (the operations that reach the file system) are logged, may fail, and are followed by a snapshot.
+        Nothing is flushed on behalf of the code: what is on disk between two operations is what the real file object put there."""
+        raw = _Raw(self, p, mode.replace('t', '').replace('b', ''))
+        try:
+            bs, chunk = self.buf if self.buf else (io.DEFAULT_BUFFER_SIZE, None)
+            buffered = io.BufferedWriter(raw, bs)
+            if 'b' in mode:
+                return buffered
+            text = io.TextIOWrapper(buffered, encoding=kwds.get('encoding'), errors=kwds.get('errors'), newline=kwds.get('newline'))
+            if chunk:
+                text._CHUNK_SIZE = chunk      # pylint: disable=protected-access
+            return text
+        except Exception:
+            io.FileIO.close(raw)
+            raise
 
-class _WFile:
-    def __init__(self, fs, p, mode, kwds):
+
+class _Raw(io.FileIO):
+    """the file descriptor level: `write` = bytes handed to the operating system, `close` = the descriptor is released"""
+
+    def __init__(self, fs, p, mode):
+        super().__init__(p, mode)
         self.fs = fs
-        self.name = fs.canon(p)
-        self.f = builtins.open(p, mode, **kwds)
+        self.cname = fs.canon(p)
+        self.released = False
 
-    def write(self, s):
+    def write(self, b):
+        b = bytes(b)
+
         def full():
-            self.f.write(s)
-            self.f.flush()
-            return len(s)
+            return io.FileIO.write(self, b)
 
         def partial(ev):
-            n = int(len(s) * self.fs.fault.get('part', 0))
-            self.f.write(s[:n])
-            self.f.flush()
-            ev[2] = s[:n].encode('utf-8').hex()
-        return self.fs._event(['write', self.name, s.encode('utf-8').hex()], full, partial)
+            n = int(len(b) * self.fs.fault.get('part', 0))
+            if n:
+                io.FileIO.write(self, b[:n])
+            ev[2] = b[:n].hex()
+        return self.fs._event(['write', self.cname, b.hex()], full, partial)
 
     def close(self):
+        if self.released:
+            return None
+        self.released = True
         try:
-            return self.fs._event(['close', self.name], lambda: None)
+            return self.fs._event(['close', self.cname], lambda: None)
         finally:
-            self.f.close()
+            io.FileIO.close(self)      # a close that reports an error has released the descriptor all the same
 
-    def __enter__(self):
-        return self
 
-    def __exit__(self, *a):
-        self.close()
+BUFFERINGS = [None, None, None, None, [16, 1], [16, 1], [64, 8], [64, 8], [256, 64], [1, 1]]
+
+
+class _RecRaw(io.RawIOBase):
+    def __init__(self):
+        super().__init__()
+        self.chunks = []
+
+    def writable(self):
+        return True
+
+    def write(self, b):
+        self.chunks.append(bytes(b))
+        return len(b)
 
 
 # ----------------------------------------------------------------------------------------
@@ -408,13 +444,13 @@ def make_class(spec):
 class Bench:
     """one scratch directory + FaultFS + patched module namespaces"""
 
-    def __init__(self):
+    def __init__(self, buf=None):
         import frappy.persistent as fp
         import frappy.modulebase as mb
         from frappy.lib import generalConfig
         self.fp, self.mb, self.gc = fp, mb, generalConfig
         self.root = tempfile.mkdtemp(prefix='verif-c17-')
-        self.fs = FaultFS(self.root)
+        self.fs = FaultFS(self.root, buf)
         self.saved = (fp.__dict__.get('open'), fp.os, mb.time, getattr(generalConfig, '_config', None))
         generalConfig.testinit(logdir=Path(self.root))
         fp.open = self.fs.open
@@ -485,17 +521,20 @@ def step_record(bench, m, exc):
             'writes': list(m.wlog) if m is not None else [], 'target': t, 'tmp': tmp, 'listing': listing}
 
 
-def ser_chunks(data):
-    class Rec:
-        def __init__(self):
-            self.chunks = []
-
-        def write(self, s):
-            self.chunks.append(s)
-    r = Rec()
-    json.dump(data, r, indent=2)
-    r.write('\n')
-    return r.chunks
+def ser_chunks(data, buf=None):
+    """the writes by which `json.dump(data, f, indent=2); f.write('\\n')` reaches the file descriptor when `f` is Python's
+    text file with the given buffering, computed without the code under test: -> list of bytes"""
+    raw = _RecRaw()
+    bs, chunk = buf if buf else (io.DEFAULT_BUFFER_SIZE, None)
+    f = io.TextIOWrapper(io.BufferedWriter(raw, bs), encoding='utf-8')
+    if chunk:
+        f._CHUNK_SIZE = chunk      # pylint: disable=protected-access
+    json.dump(data, f, indent=2)
+    f.write('\n')
+    f.flush()
+    chunks = list(raw.chunks)
+    f.close()
+    return chunks
 
 
 def export_data(m):
@@ -504,7 +543,7 @@ def export_data(m):
 
 def run_impl(spec, case, trials=True, crash_budget=None, rng=None):
     """runs one history; returns dict with steps, fork trials, restarts"""
-    bench = Bench()
+    bench = Bench(case.get('buf'))
     out = {'steps': [], 'trials': [], 'restarts': [], 'datas': [], 'objs': {}}
     try:
         fs = bench.fs
@@ -649,6 +688,7 @@ class Tables:
         self.parse = {}
         self.ser = {}
         self.imp = {}
+        self.buf = None        # buffering of the file object of this case (decides the chunks in which a text reaches the file)
 
     def add_val(self, n, v):
         r = repr(v)
@@ -684,8 +724,8 @@ class Tables:
     def add_data(self, data):
         key = json.dumps(data, sort_keys=False)
         if key not in self.ser:
-            self.ser[key] = (data, ser_chunks(data))
-            self.add_file(''.join(self.ser[key][1]).encode('utf-8'))
+            self.ser[key] = (data, ser_chunks(data, self.buf))
+            self.add_file(b''.join(self.ser[key][1]))
 
     def close(self):
         """close the value sets under validate and export/import; returns the tables object for the driver"""
@@ -739,7 +779,7 @@ class Tables:
                     self.laws['codec.broken'].append([n, r, back])
         return {
             'parse': [{'hex': h, 'dec': top(dec) if ok else None} for h, (ok, dec) in self.parse.items()],
-            'ser': [{'dict': top(d), 'chunks': ch} for d, ch in self.ser.values()],
+            'ser': [{'dict': top(d), 'chunks': [c.hex() for c in ch]} for d, ch in self.ser.values()],
             'imp': [{'name': n, 'json': tr(j), 'val': r} for (n, _), (j, r) in self.imp.items()],
             'exp': exp, 'wval': wval}
 
@@ -767,17 +807,12 @@ def gen_case(rng, spec, big):
         if rng.random() < 0.25:
             act['fault'] = {'idx': rng.choice([0, 1, 2, 3, 5, 8, 13, 21, 34, rng.randint(0, 60)]), 'part': rng.choice([0, 0.5, 1])}
         acts.append(act)
-    case = {'acts': acts, 'file': None, 'stale': None, 'fault': None}
+    case = {'acts': acts, 'file': None, 'stale': None, 'fault': None, 'buf': rng.choice(BUFFERINGS)}
     if rng.random() < 0.15:
         case['fault'] = {'idx': rng.randint(0, 12), 'part': rng.choice([0, 0.5])}
     if rng.random() < 0.25:
         case['stale'] = rng.choice([b'', b'{\n  "p0": 1', b'\xff\xfe garbage']).hex()
     return case
-
-
-def with_fault(act):
-    f = act.get('fault')
-    return None if f is None else {'idx': f['idx'], 'part': f.get('parthex', '')}
 
 
 def model_request(spec, case, ref, impl, tables):
@@ -787,11 +822,16 @@ def model_request(spec, case, ref, impl, tables):
     def fault_json(f, rec):
         if f is None:
             return None
-        part = ''
-        for e in rec['evs']:
+        part, after = '', []
+        for k, e in enumerate(rec['evs']):
             if e[-1] == 'FAULT' and e[0] == 'write':
                 part = e[2]
-        return {'idx': f['idx'], 'part': part}
+                # what the file object still wrote when it was closed on the way out (an input of the model, like `part`)
+                for e2 in rec['evs'][k + 1:]:
+                    if e2[0] != 'write':
+                        break
+                    after.append(e2[2])
+        return {'idx': f['idx'], 'part': part, 'after': after}
     given = {p['name']: p['name'] in spec['cfg'] for p in spec['params']}
     userwrite = {p['name']: p['write'] for p in spec['params']}
     dts = {p['name']: p['dt'] for p in spec['params']}
@@ -819,7 +859,7 @@ def obs_step(rec):
 
 
 def new_bytes(data):
-    return ''.join(ser_chunks(data)).encode('utf-8')
+    return b''.join(ser_chunks(data))
 
 
 def nongiven_saved(spec, ref, values):
@@ -846,6 +886,7 @@ def history_tables(spec, case, ref, impl):
     """oracle tables (json, datatypes) covering every value and file content of one history"""
     steps = impl['steps']
     tb = Tables(spec, ref)
+    tb.buf = case.get('buf')
     for n, v in ref['module'].parameters.items():
         tb.add_val(n, v.value)
     if case.get('file') is not None:
